@@ -150,16 +150,27 @@ def solver_requests(ctx):
     fixed = []
     pa, _ = sl.gen_problem(frng, "nonconvex", n=2, m=1); pa.Clb, pa.Cub = [-2.0, -2.0], [2.0, sl.INF]; pa.Dlb, pa.Dub = [-sl.INF], [0.5]
     pb, _ = sl.gen_problem(frng, "qp", n=3, m=2)
-    for prob in (pa, pb):
+    # quartic-dominated problem: the first safe step (k = 0, no direction yet) is followed by step-size backtracking inside the line search
+    pc = sl.Problem(2, 1, [[0.0, 0.125], [0.125, 1.0]], [-10.0, -1.0], [1.0, 0.0], [[0.0, 1.0]], [1.0], [-5.0, -5.0], [5.0, 5.0], [-sl.INF], [2.5])
+    for prob in (pa, pb, pc):
         for solver, direction in (("panoc", "lbfgs"), ("zerofpr", "lbfgs"), ("panoc", "struclbfgs")):
             for crit in ("ApproxKKT", "ApproxKKT2", "Ipopt"):
                 for L0 in (None, "0.05"):
                     last = ctx.n(45, 120)
                     for j in range(0, last):
                         params = ["solver.max_iter=30", "xcrit=%s" % crit] + (["solver.Lipschitz.L_0=%s" % L0] if L0 else [])
-                        x0 = [1.5, -0.5, 0.75][:prob.n]
+                        x0 = [1.5, -0.5, 0.75][:prob.n] if prob is not pc else [-3.0, 3.0]
                         reqs.append(("stopscan", crit, 30, sl.Request(prob, x0, [0.5, -0.25][:prob.m], [2.0, 1.0][:prob.m], solver, direction, "inner", params,
                                                                      always=False, tol=1e-9, stop_at_eval=j)))
+    # the same scan on the quartic problem from several starts / multipliers / penalties (where the backtracking pattern differs)
+    for x0 in ([0.5, 0.5], [-3.0, 3.0], [4.0, 4.0]):
+        for S0 in ([1.0], [10.0]):
+            for y0 in ([0.0], [2.0]):
+                for solver, direction in (("panoc", "lbfgs"), ("zerofpr", "lbfgs")):
+                    for crit in ("ApproxKKT", "ApproxKKT2"):
+                        for j in range(0, ctx.n(40, 90)):
+                            reqs.append(("stopscan", crit, 30, sl.Request(pc, x0, y0, S0, solver, direction, "inner", ["solver.max_iter=30", "xcrit=%s" % crit],
+                                                                         always=False, tol=1e-9, stop_at_eval=j)))
     return reqs
 
 def run_oracle(ctx, scenario, crit, req, o):
